@@ -46,6 +46,7 @@ package bitmap
 //@     invariant 0 <= j && j <= 8 && 0 <= i && i < 256
 
 //@ func Rank64 returns (c, b)
+//@   witness-gen rindex = IndexRank64(words)
 //@   requires len(words) < 1<<25
 //@   requires isRank64Index(words, rindex, false) || isRank64Index(words, rindex, true)
 //@   requires 0 <= i && int(i) < 64*len(words)
@@ -76,6 +77,7 @@ package bitmap
 //@     fuel 2
 
 //@ func Rank128 returns (c, b)
+//@   witness-gen rindex = IndexRank128(words)
 //@   requires len(words) < 1<<25
 //@   requires isRank128Index(words, rindex)
 //@   requires 0 <= i && int(i) < 64*len(words)
